@@ -867,8 +867,49 @@ func (x *Exec) loopContract(ord int) *LoopContract {
 	return x.contract.Loops[ord]
 }
 
+// unrollLoop executes a loop whose guard folds to a literal at every iteration (literal bounds under a cases clause).
+func (x *Exec) unrollLoop(st *State, ls *loopSpec, k cont, depth int) {
+	if depth > 16 {
+		fail("loop %d: unroll limit exceeded", ls.ord)
+	}
+	c := TTrue
+	if ls.cond != nil {
+		c = ls.cond(st)
+	}
+	switch c.S {
+	case "false":
+		k(st)
+		return
+	case "true":
+	default:
+		fail("loop %d: cannot unroll, guard is not a literal (%s)", ls.ord, c.S)
+	}
+	next := func(s *State) {
+		if s.dead {
+			return
+		}
+		if ls.post != nil {
+			ls.post(s)
+		}
+		x.unrollLoop(s, ls, k, depth+1)
+	}
+	x.brk = append(x.brk, k)
+	x.cont = append(x.cont, next)
+	nb, nc := len(x.brk), len(x.cont)
+	if ls.pre != nil {
+		ls.pre(st)
+	}
+	x.block(st, ls.body, next)
+	x.brk = x.brk[:nb-1]
+	x.cont = x.cont[:nc-1]
+}
+
 func (x *Exec) runLoop(st *State, ls *loopSpec, k cont) {
 	lc := x.loopContract(ls.ord)
+	if lc != nil && lc.Unroll {
+		x.unrollLoop(st, ls, k, 0)
+		return
+	}
 	pos := ls.node.Pos()
 	// (1) invariants hold on entry
 	if lc != nil {
